@@ -141,6 +141,38 @@ func init() {
 		w.ex.Thread("S1", func() { w.n.Send(id, "a") })
 		w.ex.Thread("S2", func() { w.n.Send(id, "b"); w.n.Send(id, "c") })
 	})
+	// bounded mailbox, urgent queue full, the process inside a callback: a further exit signal is refused, it is not
+	// a licence to tear the process down next to its running callback
+	c01Scenario("bounded-urgent-full-exit-exit", pb, func(w *World) {
+		g := &vsched.Gate{}
+		pid := w.spawnProbe("R", probeCfg{trap: false, onMsg: func(p *probe, from gen.PID, m any) error {
+			if m == "park" {
+				g.Wait()
+			}
+			return nil
+		}}, gen.ProcessOptions{MailboxSize: 1})
+		w.Setup("park", func() { w.n.Send(pid, "park") })
+		w.ex.Thread("X1", func() { w.n.SendExit(pid, errE) })
+		w.ex.Thread("X2", func() { w.n.SendExit(pid, errE) })
+		w.ex.ThreadLow("G", func() { g.Open() })
+	})
+	// the same for a meta process with a bounded mailbox whose owner terminates while its handler is busy
+	c01Scenario("meta-bounded-system-full-owner-exit", pb, func(w *World) {
+		g := &vsched.Gate{}
+		id, mp := w.spawnMeta("R", gen.MetaOptions{MailboxSize: 1})
+		mp.onMsg = func(m *metaProbe, from gen.PID, msg any) error {
+			if msg == "park" {
+				g.Wait()
+			}
+			return nil
+		}
+		w.Setup("park", func() { w.n.Send(id, "park") })
+		w.Setup("fill", func() {
+			w.n.Send(w.pids["PR"], doMsg{func(p *probe) error { p.SendExitMeta(id, errE); return nil }})
+		})
+		w.ex.Thread("K", func() { w.n.Send(w.pids["PR"], doMsg{func(p *probe) error { return gen.TerminateReasonNormal }}) })
+		w.ex.ThreadLow("G", func() { g.Open() })
+	})
 	// messages sent to a meta process as soon as SpawnMeta has returned, i.e. while its start-up goroutine is on its way
 	c01Scenario("meta-spawn-then-send", pb, func(w *World) {
 		r := &rec{name: "R"}
